@@ -43,8 +43,15 @@ def rule_pairing(ctx, rid="R2.2"):
         # a handler that can swallow GeneratorExit around a yield would defeat the close edge
         for n in cfg.live:
             if n.kind == "dispatch" and n.info == "close" and n.out("close"):
-                r.fail("%s|handler-intercepts-close" % f.qual, site(f, n.ast),
-                       "an except clause can intercept generator close around a yield")
+                # an except clause that takes the close (BaseException / bare except / GeneratorExit) must pass it on: every way
+                # through the clause ends in a bare `raise`, and it yields nothing
+                for h in [y for (l, y) in n.succ if l == "close" and y.kind == "except"]:
+                    hb = h.ast.body
+                    yields = any(isinstance(x, (ast.Yield, ast.YieldFrom)) for st in hb for x in ast.walk(st))
+                    reraises = bool(hb) and isinstance(hb[-1], ast.Raise) and hb[-1].exc is None
+                    if yields or not reraises:
+                        r.fail("%s|handler-intercepts-close" % f.qual, site(f, h.ast),
+                               "an except clause takes generator close around a yield and does not simply re-raise it")
         if bad:
             for b in bad:
                 key = "%s|exit:%s|depth:%+d" % (f.qual, b["exit"].info, b["depth"])
@@ -78,6 +85,20 @@ def rule_pairing(ctx, rid="R2.2"):
                 if t.kind == "func" and t.func in cm_ok and is_contextmanager(t.func):
                     in_with = any(isinstance(w, ast.With) and any(i.context_expr is call for i in w.items)
                                   for w in walk_body(f))
+                    if not in_with:
+                        # `cm = resolver.resolving(ref)` ... `with cm as x:` -- the manager is made in one place and entered in
+                        # another: fine when the local holds nothing but such managers and is used for nothing but a with item
+                        holder = [n for n in walk_body(f) if isinstance(n, ast.Assign) and n.value is call and len(n.targets) == 1 and isinstance(n.targets[0], ast.Name)]
+                        if holder:
+                            name = holder[0].targets[0].id
+                            loads = [n for n in walk_body(f) if isinstance(n, ast.Name) and n.id == name and isinstance(n.ctx, ast.Load)]
+                            withs = [i.context_expr for w in walk_body(f) if isinstance(w, ast.With) for i in w.items]
+                            defs = [n.value for n in walk_body(f) if isinstance(n, ast.Assign) and any(isinstance(t2, ast.Name) and t2.id == name for t2 in n.targets)]
+
+                            def is_cm_call(v):
+                                return isinstance(v, ast.Call) and any(t2.kind == "func" and t2.func in cm_ok and is_contextmanager(t2.func) for t2 in calls.callee(f, v))
+                            if loads and all(any(l is w for w in withs) for l in loads) and all(is_cm_call(d) for d in defs):
+                                in_with = True
                     if not in_with:
                         r.fail("%s|bare-call:%s" % (f.qual, t.func.qual), site(f, call),
                                "context manager %s called outside a with statement" % t.func.name)
@@ -351,17 +372,28 @@ def rule_lazy_inside_scope(ctx, rid="R2.8"):
     prog = ctx.prog
     calls = calls_of(prog)
     push, pop = push_pop_funcs(prog)
-    r = ctx.rule(rid, "an error iterator created inside an entered resolution scope is consumed inside it (not returned, yielded whole or iterated later)", floor=2)
+    r = ctx.rule(rid, "an error iterator created inside an entered resolution scope is consumed inside it (not returned, yielded whole or iterated later)", floor=1)
 
     def is_gen_call(f, e):
         return isinstance(e, ast.Call) and isinstance(e.func, ast.Attribute) and e.func.attr in ("descend", "iter_errors")
 
     def scope_region(f, node):
         """is `node` a with/try statement that enters a scope for its body?"""
+        def enters(c, depth=0):
+            if isinstance(c, ast.Call) and isinstance(c.func, ast.Attribute) and c.func.attr in ("resolving", "in_scope"):
+                return True
+            if isinstance(c, ast.Call):
+                for t in calls.callee(f, c):
+                    if t.kind == "func" and t.func is not None and is_contextmanager(t.func) and any(
+                            any(t2.kind == "func" and t2.func is push for t2 in tg2) for (_n2, _c2, tg2) in calls.calls_in(t.func)):
+                        return True
+            if isinstance(c, ast.Name) and depth < 2:
+                defs = [n.value for n in walk_body(f) if isinstance(n, ast.Assign) and any(isinstance(t2, ast.Name) and t2.id == c.id for t2 in n.targets)]
+                return bool(defs) and all(enters(d, depth + 1) for d in defs)
+            return False
         if isinstance(node, ast.With):
             for it in node.items:
-                c = it.context_expr
-                if isinstance(c, ast.Call) and isinstance(c.func, ast.Attribute) and c.func.attr in ("resolving", "in_scope"):
+                if enters(it.context_expr):
                     return True
         if isinstance(node, ast.Try) and node.finalbody:
             for x in node.finalbody:
